@@ -155,6 +155,21 @@ def fam_time(pair, with_region):
               "timing chain, full domain on the named pair of levels")
 
 
+def fam_time_two_regions(pair):
+  """the timing chain in a document that declares a second region with content of its own: snapshots taken with the
+  SignificantTimes object then go through the per-region clones of the document"""
+  full = [(b, e) for b in docgen.BEGINS_FULL for e in docgen.ENDS_FULL]
+  prod = Product([full if lv in pair else ([(None, None), (F(1), F(2))] if lv == "region" else [(None, None)]) for lv in docgen.LEVELS])
+  n = prod.n
+
+  def dec(i):
+    spec = docgen.chain_doc(dict(zip(docgen.LEVELS, prod.decode(i))), True)
+    spec["regions"].append({"id": "r2"})
+    spec["body"]["c"][0]["c"].append(node("p", [node("span", [text("z")], id="s9")], id="p9", r="r2", b=F(1, 2), e=F(5, 2)))
+    return spec
+  return _fam(f"F-time-2regions[{'+'.join(pair)}]", n, dec, "timing chain, full domain on the named pair of levels, two declared regions")
+
+
 def fam_tree(max_nodes):
   trees = [t for t in docgen.all_trees(max_nodes) if docgen.has_leaf(t)]
   return _fam(f"F-tree[<={max_nodes}]", len(trees), lambda i: doc_spec(copy.deepcopy(trees[i])), "all untimed trees with a leaf")
@@ -429,6 +444,8 @@ def plan(tier, seed):
     nr = [p for p in PAIRS if "region" not in p]
     for j in range(2):
       fams.append(fam_time(nr[(2 * seed + j) % 6], False))
+    nr2 = [p for p in PAIRS if "region" not in p]
+    fams.append(fam_time_two_regions(nr2[seed % len(nr2)]))
     fams.append(fam_tree(8))
     fams.append(fam_region(6, "two"))
     fams.append(fam_region(6, "two-timed"))
@@ -438,6 +455,8 @@ def plan(tier, seed):
       fams.append(fam_time(pr, True))
     for pr in [p for p in PAIRS if "region" not in p]:
       fams.append(fam_time(pr, False))
+    for pr in [p for p in PAIRS if "region" not in p]:
+      fams.append(fam_time_two_regions(pr))
     fams.append(fam_tree(7))
     fams.append(fam_region(6, "two"))
     fams.append(fam_region(5, "two-timed"))
